@@ -429,14 +429,14 @@ Proof.
   exact H.
 Qed.
 
-(* a reply sent to the client: some message, packed for the client's transport, that an addon set
+(* a reply sent to the client: some message, packed for the transport of the client, that an addon set
    or that has the id of a query the client sent and is either the SERVFAIL made from that query
    or a message received from upstream *)
 Definition answers_query (c : cfg) (script : list act) (cq sm : list message) (data : bytes) : Prop :=
   exists m, data = pack_message m (ctcp c) /\
     (addon_msg script m \/ exists q, In q cq /\ m_id q = m_id m /\ (m = fail q \/ In m sm)).
 
-(* a flow as a hook shows it: the request is a query the client sent; a response is an addon's or
+(* a flow as a hook shows it: the request is a query the client sent; a response is set by an addon or is
    an upstream message with the id of that query *)
 Definition carries_query (script : list act) (cq sm : list message) (o : out) : Prop :=
   match o with
